@@ -363,7 +363,9 @@ def entry_point(chk, repo):
     def branch_hook(itp, st, v, fr):
         if isinstance(v, Opaque) and v.name.startswith('tolerance test'):
             return None     # np.allclose / np.isclose on the caller's data: both outcomes are explored (fork)
-        return False        # type()/isinstance() tests against numpy arrays: the scalar path
+        if isinstance(v, Opaque) and v.name == 'isinstance':
+            return False    # isinstance(x, np.ndarray) on a symbolic scalar: the scalar path (array inputs have their own pass)
+        return None         # everything else: sign domain, then forked, else the analysis fails closed
     it = Interp(repo, hooks={'call': call_hook, 'branch': branch_hook}, max_depth=12)
     M = X.atom('M_host', 'pos'); m = X.atom('m_target', 'pos'); R = X.atom('R', 'pos'); g = X.atom('g', 'pos'); rho = X.atom('rho', 'pos'); C = X.atom('C', 'pos')
     eta = X.atom('eta', 'pos'); mu = X.atom('mu', 'pos'); e = X.atom('e', 'pos'); n = X.atom('n', 'pos'); spin = X.atom('spin'); I_ = X.atom('I')
